@@ -21,7 +21,8 @@ func init() {
 			"C06.empty: DefaultComparePreRelease over (len(a)?0, len(b)?0): both empty 0, only a empty +1, only b empty −1. " +
 			"C06.build: no function reachable from Ver.Compare reads Ver.Build. C06.entry: the six string helpers parse both inputs with their own parser, test both errors, and return parse(a).Compare(parse(b)) / .Latest; an error is returned only behind the failing edge of one of the two parse calls. C06.parse: the decision table of sem.unmarshalText and its field ← capture mapping (as C03.gate / C03.num): the compared fields are the captures of the pattern applied to the whole input. C06.latest: Ver.Latest returns the argument exactly when Compare = −1 and the receiver otherwise (as C14.latest). " +
 			"C06.sep: some constant containing '.' is used by the code reachable from DefaultComparePreRelease (identifier-wise comparison must see the separator). " +
-			"C06.num: where the code establishes that both operands are all-digit, every path to the result contains a length comparison or numeric conversion. C06.range: every result of the comparison chain lies in {−1,0,1} (C14.range under this property) — Latest and the helpers test it against −1 / 1. C06.alias: the parsed Ver's strings are copies, package sem imports no unsafe (sem part of C17.alias): a reused input buffer cannot change a version already parsed. C06.scan: shape of the byte scan in comparePreRelease: counter from 0 in unit steps below the length of one operand; at the first differing index the result is the remainder comparison of both operands cut at one common index, returned unchanged; at the end of the scan 0 under equal lengths and 1 for a proper prefix (the longer text is the greater); the all-digit test matches a regexp global whose language is [0-9]*.",
+			"C06.num: where the code establishes that both operands are all-digit, every path to the result contains a length comparison or numeric conversion. C06.range: every result of the comparison chain lies in {−1,0,1} (C14.range under this property) — Latest and the helpers test it against −1 / 1. C06.alias: the parsed Ver's strings are copies, package sem imports no unsafe (sem part of C17.alias): a reused input buffer cannot change a version already parsed. C06.scan: shape of the byte scan in comparePreRelease: counter from 0 in unit steps below the length of one operand; at the first differing index the result is the remainder comparison of both operands cut at one common index, returned unchanged; at the end of the scan 0 under equal lengths and 1 for a proper prefix (the longer text is the greater); the all-digit test matches a regexp global whose language is [0-9]*." +
+			" Added after the second rule audit: C06.lang carries the skeleton obligation (^<1>.<2>.<3>[-<4>][+<5>]$); C06.core admits a fast path on equal pre-release texts or equal values (extra worlds: texts equal / different); the rewind loop's exit may be a digit predicate of the module (evaluated on '0'..'9'), the cut may be computed by a helper from (operand, first difference) or as len(TrimRight(prefix, digits)).",
 		NotDecided:  []string{"full conformance of the identifier-wise comparison for all strings (value-level string scan)", "the pinned a01 == a1 departure is untouched by every rule"},
 		Assumptions: []string{"strings.Compare ∈ {-1,0,1}"},
 		Technique:   "predicate abstraction over orderings + field-access and constant-use rules over go/ssa",
